@@ -58,18 +58,23 @@ def yamlHostile (p : Store.Point) : Bool :=
 def handle (args : List String) (impl : String) : Verdict :=
   match args with
   | [c] =>
-    match c.splitOn "|" with
+    let fs := c.splitOn "|"
+    let del := fs.getD 4 "" == "d"
+    match fs.take 4 with
     | [opsS, expS, mode, _where] =>
       let grp := fun (id : String) => parseOps s!"ep:{toHex (strBytes id)}:{toHex (strBytes "R")}:{toHex nodeTypeT},-,0,{toHex (strBytes "group")},50,0,-,-"
       match grp "G", grp "H", parseOps opsS, ofHex expS with
       | some g, some hgrp, some ops, some expId =>
         let (stA, _) := runOps C06.st0 (g ++ ops)
-        -- target state: the same instance, or a fresh one
-        let (stT, _) := if _where == "a" then runOps stA hgrp else runOps C06.st0 hgrp
         let top := strBytes "H"
         match exportNodes isDel stA expId with
         | none => { model := "err export", spec := some (impl == "err export") }
         | some flat =>
+          -- "d": every node below the exported one is deleted after the export (its edge gets tombstone 1 at time 5000)
+          let delOps : List Op := if del then (flat.filter (fun x => decide (1 ≤ x.1))).map (fun x =>
+            Op.ep x.2.id x.2.parent [{ type := tombstoneT, value := 4607182418800017408, time := 5000 }]) else []
+          -- target state: the same instance, or a fresh one
+          let (stT, _) := if _where == "a" then runOps stA (hgrp ++ delOps) else runOps C06.st0 hgrp
           let hostile := flat.any (fun x => x.2.pts.any yamlHostile || x.2.epts.any yamlHostile)
           let res := importNodes isDel freshId stT top flat (mode == "p") 1000000
           let m := match res with
